@@ -474,3 +474,49 @@ func TypeSchema(r *rand.Rand, o TypeOpts) *model.Schema {
 	s.Reindex()
 	return s
 }
+
+// PadDescriptions gives some single-line descriptions leading and/or trailing blanks (space, tab) and mixes in a
+// double quote: what a hand-written schema file looks like. ggql normalises descriptions when it reads them, so a model
+// treated this way is only good for checks that compare ggql with itself (print / re-parse), not with the model.
+func PadDescriptions(r *rand.Rand, s *model.Schema) int {
+	n := 0
+	pad := func(d *string) {
+		if *d == "" || strings.Contains(*d, "\n") || r.Intn(3) != 0 {
+			return
+		}
+		v := *d
+		if r.Intn(2) == 0 && !strings.Contains(v, "\"") {
+			v += " \"q\" end"
+		}
+		blanks := []string{" ", "\t", "  ", " \t"}
+		if r.Intn(3) != 0 {
+			v = blanks[r.Intn(len(blanks))] + v
+		}
+		if r.Intn(3) != 0 {
+			v += blanks[r.Intn(len(blanks))]
+		}
+		*d = v
+		n++
+	}
+	args := func(as []*model.ArgDef) {
+		for _, a := range as {
+			pad(&a.Desc)
+		}
+	}
+	for _, t := range s.Types {
+		pad(&t.Desc)
+		for _, f := range t.Fields {
+			pad(&f.Desc)
+			args(f.Args)
+		}
+		args(t.Inputs)
+		for _, v := range t.Values {
+			pad(&v.Desc)
+		}
+	}
+	for _, d := range s.Dirs {
+		pad(&d.Desc)
+		args(d.Args)
+	}
+	return n
+}
